@@ -48,6 +48,7 @@ type half struct {
 	plan     SegPlan
 	seg      int // remaining bytes of the current segment (0 = ask plan)
 	rec      []byte
+	wlens    []int
 	record   bool
 	deadline time.Time
 	dlTimer  *time.Timer
@@ -68,7 +69,11 @@ func newHalf(plan SegPlan, record bool) *half {
 type BufConn struct {
 	rd, wr *half
 	name   string
+	peer   *BufConn
 }
+
+// Peer returns the other end.
+func (c *BufConn) Peer() *BufConn { return c.peer }
 
 type bufAddr string
 
@@ -79,7 +84,9 @@ func (a bufAddr) String() string  { return string(a) }
 func Pair(planAB, planBA SegPlan, record bool) (a, b *BufConn) {
 	ab := newHalf(planAB, record)
 	ba := newHalf(planBA, record)
-	return &BufConn{rd: ba, wr: ab, name: "a"}, &BufConn{rd: ab, wr: ba, name: "b"}
+	a, b = &BufConn{rd: ba, wr: ab, name: "a"}, &BufConn{rd: ab, wr: ba, name: "b"}
+	a.peer, b.peer = b, a
+	return a, b
 }
 
 func (c *BufConn) Read(b []byte) (int, error) {
@@ -133,6 +140,7 @@ func (c *BufConn) Write(b []byte) (int, error) {
 	h.buf = append(h.buf, b...)
 	if h.record {
 		h.rec = append(h.rec, b...)
+		h.wlens = append(h.wlens, len(b))
 	}
 	h.total += int64(len(b))
 	h.cond.Broadcast()
@@ -214,6 +222,34 @@ func (c *BufConn) Sent() []byte {
 	h.mu.Lock()
 	defer h.mu.Unlock()
 	return append([]byte{}, h.rec...)
+}
+
+// Writes returns the length of every Write call made at this end (needs record).
+func (c *BufConn) Writes() []int {
+	h := c.wr
+	h.mu.Lock()
+	defer h.mu.Unlock()
+	return append([]int{}, h.wlens...)
+}
+
+// Steal removes and returns every byte the peer has written and this end has not read yet.
+func (c *BufConn) Steal() []byte {
+	h := c.rd
+	h.mu.Lock()
+	defer h.mu.Unlock()
+	b := h.buf
+	h.buf = nil
+	h.seg = 0
+	return b
+}
+
+// Reopen clears the peer's write-closed state so that the harness can inject bytes after a Steal.
+func (c *BufConn) Reopen() {
+	h := c.rd
+	h.mu.Lock()
+	h.wclosed = false
+	h.werr = nil
+	h.mu.Unlock()
 }
 
 // SentTotal returns the number of bytes written at this end.
